@@ -204,6 +204,10 @@ class State:
             elif len(parts) == 4 and parts[2] == "old" and f"{parts[0]}.{parts[1]}.old" in notify_vars:
                 notify_vars[var_name] = getattr(notify_vars[f"{parts[0]}.{parts[1]}.old"], parts[3], None)
             elif 1 <= var_name.count(".") <= 3 and not cls.exist(var_name):
+                if var_name in Function.functions or var_name in Function.ast_functions:
+                    # a function such as state.get() or task.unique() used in the expression,
+                    # not a state variable
+                    continue
                 notify_vars[var_name] = None
             elif len(parts) in (2, 3):
                 #
